@@ -8,6 +8,8 @@ package modsa
 import (
 	"fmt"
 	"net"
+	"net/http"
+	"net/http/fcgi"
 	"path/filepath"
 	"strings"
 	"sync"
@@ -24,7 +26,9 @@ type c49Rig struct {
 	resp    []hdr             // headers the backend answers with
 	got     chan *ref.Message // requests as received by the backend
 	gen     int
-	retries int // repeated attempts after a 5xx without forwarding
+	useFcgi bool // route the next exchanges to the FastCGI cluster
+	nRw     int  // rewrite cases without host action seen (two of three go to the FastCGI cluster)
+	retries int  // repeated attempts after a 5xx without forwarding
 	total   int // end-to-end exchanges asked for
 	rig5xx  int // ... of which the rig itself could not forward even without rules
 }
@@ -63,17 +67,45 @@ func c49StartRig() (*c49Rig, error) {
 		return nil, err
 	}
 	r.backend = b
+	// second backend: a FastCGI responder (std net/http/fcgi) behind a cluster with
+	// Protocol "fcgi"; requests carrying the marker header X-Verif-Fcgi are routed to it.
+	// What it reports is the request URI the application sees (REQUEST_URI) and HTTP_HOST.
+	fln, err := net.Listen("tcp", "127.0.0.1:0")
+	if err != nil {
+		return nil, err
+	}
+	go fcgi.Serve(fln, http.HandlerFunc(func(w http.ResponseWriter, hr *http.Request) {
+		m := &ref.Message{Method: hr.Method, Target: hr.URL.RequestURI(), Proto: "FCGI",
+			Fields: []ref.Field{{Name: "Host", Value: hr.Host}}}
+		r.mu.Lock()
+		hs := append([]hdr(nil), r.resp...)
+		r.mu.Unlock()
+		for _, h := range hs {
+			w.Header().Add(h.K, h.V)
+		}
+		select {
+		case r.got <- m:
+		default:
+		}
+		w.WriteHeader(200)
+	}))
+	fcl := sys.OneBackendCluster("cluster_f", fln.Addr().(*net.TCPAddr).Port)
+	fcl.Protocol = "fcgi"
 	data := &sys.DataConf{
 		Version:        "v1",
 		Hosts:          map[string][]string{"t": {"example.org"}},
 		HostTags:       map[string][]string{"p": {"t"}},
 		DefaultProduct: "p",
-		Rules:          map[string][]sys.Rule{"p": {{Cond: "default_t()", Cluster: "cluster_x"}}},
-		Clusters:       []sys.Cluster{sys.OneBackendCluster("cluster_x", b.Port)},
+		Rules: map[string][]sys.Rule{"p": {
+			{Cond: `req_header_key_in("X-Verif-Fcgi")`, Cluster: "cluster_f"},
+			{Cond: "default_t()", Cluster: "cluster_x"}}},
+		Clusters: []sys.Cluster{sys.OneBackendCluster("cluster_x", b.Port), fcl},
 	}
 	// generous time budgets: the rig shares the machine with 15 sibling shards and other jobs
-	data.Clusters[0].TimeoutConnSrvMs = 10000
-	data.Clusters[0].TimeoutResponseHeaderMs = 30000
+	for i := range data.Clusters {
+		data.Clusters[i].TimeoutConnSrvMs = 10000
+		data.Clusters[i].TimeoutResponseHeaderMs = 30000
+	}
 	rig, err := sys.Start(sys.Options{
 		Modules: []string{"mod_redirect", "mod_rewrite", "mod_header"},
 		Files: map[string]string{
@@ -204,7 +236,11 @@ func (r *c49Rig) exchange(c *c49Case) c49Exchange {
 	defer conn.Close()
 	x.localPort = conn.LocalAddr().(*net.TCPAddr).Port
 	conn.SetDeadline(time.Now().Add(c49E2EWait))
-	if _, err := conn.Write(c.Req.wire()); err != nil {
+	spec := c.Req
+	if r.useFcgi {
+		spec.Headers = append(append([]hdr(nil), spec.Headers...), hdr{"X-Verif-Fcgi", "1"})
+	}
+	if _, err := conn.Write(spec.wire()); err != nil {
 		x.timeout, x.note = true, err.Error()
 		return x
 	}
